@@ -18,6 +18,7 @@ EXPLANATION = (
     "field f to element i's field f, hue and alpha included (N = 1, 2, 3); (ARMS) the scalar and the mask-generic arms of Rgb->Hsv and "
     "Rgb->Hsl are equal on every ordering of (r, g, b) (hue modulo 360) and equal the hexcone definition.  Not decided: f32 vs f64 "
     "accuracy, accuracy of wide's transcendental approximations."
+    " NUM-SEM (integers): the integer impls of the num traits mean what the trait says (std Ord::min/max/clamp axiomatised). SEL allow-list entries name the reduction and its polarity."
 )
 
 SCALARS = ["f32", "f64"]
